@@ -28,6 +28,10 @@ func init() {
 			{Name: "float-asymmetric-margin", File: "pkg/cmp/number.go", Old: "relMarg := fraction * math.Min(math.Abs(fx), math.Abs(fy))", New: "relMarg := fraction * math.Abs(fx)", Expect: "R16.3"},
 			{Name: "and-returns-true-early", File: "pkg/cmp/logic.go", Old: "\t\t\tif !eq(x, y) {\n\t\t\t\treturn false\n\t\t\t}\n\t\t}\n\t\treturn true", New: "\t\t\tif eq(x, y) {\n\t\t\t\treturn true\n\t\t\t}\n\t\t}\n\t\treturn false", Expect: "R16.4"},
 			{Name: "valueand-ok-always", File: "pkg/cmp/logic.go", Old: "\t\treturn true, ok\n", New: "\t\treturn true, true\n", Expect: "R16.4"},
+			{Name: "float-scale-from-signed-values", File: "pkg/cmp/number.go", Old: "math.Min(math.Abs(fx), math.Abs(fy))", New: "math.Abs(math.Min(fx, fy))", Expect: "R16.3"},
+			{Name: "value-last-advances-when-suppressed", File: "pkg/resource/value.go", Old: "\t\t\tif r.equivalence != nil && r.equivalence.Compare(last, change.Value) {\n\t\t\t\tcontinue\n\t\t\t}\n\t\t\tlast = change.Value", New: "\t\t\tprev := last\n\t\t\tlast = change.Value\n\t\t\tif r.equivalence != nil && r.equivalence.Compare(prev, change.Value) {\n\t\t\t\tcontinue\n\t\t\t}", Expect: "R16.5"},
+			{Name: "revert-F31-collection-old-vs-new", File: "pkg/resource/collection.go", Old: "\t\t\t\tif c.equivalence.Compare(last, change.NewValue) {", New: "\t\t\t\t_ = last\n\t\t\t\tif c.equivalence.Compare(change.OldValue, change.NewValue) {", Expect: "R16.5"},
+			{Name: "collection-held-written-before-verdict", File: "pkg/resource/collection.go", Old: "\t\t\t\tif c.equivalence.Compare(last, change.NewValue) {", New: "\t\t\t\theld[change.Id] = change.NewValue\n\t\t\t\tif c.equivalence.Compare(last, change.NewValue) {", Expect: "R16.5"},
 			{Name: "abs-spelling", Silent: true, File: "pkg/cmp/time.go", Old: "\t\tif xd < yd {\n\t\t\treturn yd-xd <= d, true\n\t\t}\n\t\treturn xd-yd <= d, true", New: "\t\tdiff := xd - yd\n\t\tif diff < 0 {\n\t\t\tdiff = -diff\n\t\t}\n\t\treturn diff <= d, true"},
 		},
 	})
@@ -41,6 +45,7 @@ func runC16(c *an.Ctx) {
 	r164(c)
 	r045as(c, "R16.5")
 	r046(c, "R16.5")
+	r165held(c, "R16.5")
 	c.Min("R16.1", 25)
 	c.Min("R16.2", 4)
 	c.Min("R16.3", 4)
@@ -639,6 +644,10 @@ func symmetricBound(c *an.Ctx, t ssa.Value, px, py *ssa.Parameter) string {
 					f1, ok1 := call.Call.Args[0].(*ssa.Call)
 					f2, ok2 := call.Call.Args[1].(*ssa.Call)
 					if ok1 && ok2 && an.CalleeName(f1) == an.CalleeName(f2) {
+						// a relative scale must be a magnitude: for floating point quantities both operands are math.Abs(.)
+						if b, isB := f1.Type().Underlying().(*types.Basic); isB && b.Info()&types.IsFloat != 0 && an.CalleeName(f1) != "math.Abs" {
+							bad = "the scale of the relative margin is taken from the signed values (" + n + " of " + an.CalleeName(f1) + " results, not of their absolute values): for negative values the tolerance is scaled by the larger magnitude, so pairs outside the stated fraction are accepted and Compare(x, y) differs from Compare(-x, -y)"
+						}
 						return
 					}
 					if !ok1 && !ok2 {
@@ -794,5 +803,146 @@ func r164(c *an.Ctx) {
 		}
 		c.Check(okEarly, rule, "pkg/cmp."+t.fn+"|a comparer that spoke decides early", a.Pos(), "", fmt.Sprintf("%s does not return (%v, true) when a comparer reports ok and %v", t.fn, t.stopOn, t.stopOn))
 		c.Check(okAfter, rule, "pkg/cmp."+t.fn+"|ok only if some comparer spoke", a.Pos(), "", t.fn+" reports ok although no combined comparer spoke for the field (it then overrides the default comparison)")
+	}
+}
+
+// r165held: the value the configured equivalence is judged against is what the subscriber holds:
+// a loop-carried state of the Pull goroutine (Value: the `last` variable; Collection: a per-id map)
+// that advances only on the path that goes on to deliver the change.
+func r165held(c *an.Ctx, rule string) {
+	for _, t := range [][2]string{{"Value", "Pull"}, {"Collection", "Pull"}} {
+		fn := mustFunc(c, rule, resPkg, t[0], t[1])
+		if fn == nil {
+			continue
+		}
+		name := "(*pkg/resource." + t[0] + ")." + t[1]
+		cons := name + "|equivalence is judged against what the subscriber holds"
+		found := false
+		for _, g := range an.GoStmts(fn) {
+			f := an.GoTarget(g)
+			if f == nil {
+				continue
+			}
+			var loop *ssa.BasicBlock
+			for _, b := range f.Blocks {
+				if b.Comment == "rangechan.loop" {
+					loop = b
+				}
+			}
+			if loop == nil {
+				continue
+			}
+			var cmpCall *ssa.Call
+			an.Instrs(f, func(in ssa.Instruction) {
+				if call, ok := in.(*ssa.Call); ok && call.Call.IsInvoke() && call.Call.Method.Name() == "Compare" && len(call.Call.Args) == 2 {
+					cmpCall = call
+				}
+			})
+			if cmpCall == nil {
+				continue
+			}
+			found = true
+			var sel *ssa.Select
+			an.Instrs(f, func(in ssa.Instruction) {
+				if s, ok := in.(*ssa.Select); ok && loop.Dominates(s.Block()) {
+					sel = s
+				}
+			})
+			if sel == nil {
+				c.Unk(rule, cons, f.Pos(), "no select that delivers the change found in the update loop")
+				continue
+			}
+			// the loop-carried state the reference derives from
+			var hdrPhis []*ssa.Phi
+			var maps []ssa.Value
+			seen := map[ssa.Value]bool{}
+			var walk func(v ssa.Value)
+			walk = func(v ssa.Value) {
+				if v == nil || seen[v] {
+					return
+				}
+				seen[v] = true
+				switch x := v.(type) {
+				case *ssa.Phi:
+					if x.Block() == loop {
+						hdrPhis = append(hdrPhis, x)
+						return
+					}
+					for _, e := range x.Edges {
+						walk(e)
+					}
+				case *ssa.Extract:
+					walk(x.Tuple)
+				case *ssa.Lookup:
+					if _, isMap := x.X.Type().Underlying().(*types.Map); isMap {
+						maps = append(maps, x.X)
+					}
+				case *ssa.ChangeInterface:
+					walk(x.X)
+				case *ssa.MakeInterface:
+					walk(x.X)
+				}
+			}
+			walk(cmpCall.Call.Args[0])
+			if len(hdrPhis) == 0 && len(maps) == 0 {
+				c.Bad(rule, cons, cmpCall.Pos(), "the first operand of equivalence.Compare does not derive from state carried across iterations of the update loop (the last delivered value): each change is compared with its immediate predecessor only, so with a tolerance comparer a run of small steps is suppressed one by one and the subscriber keeps a value that is no longer equivalent to the stored one")
+				continue
+			}
+			why := ""
+			selDominates := func(b *ssa.BasicBlock) bool { return sel.Block().Dominates(b) }
+			for _, phi := range hdrPhis {
+				for i, e := range phi.Edges {
+					pred := loop.Preds[i]
+					if !loop.Dominates(pred) {
+						continue // entry edge: the seed
+					}
+					var chk func(v ssa.Value, p *ssa.BasicBlock, depth int)
+					chk = func(v ssa.Value, p *ssa.BasicBlock, depth int) {
+						if v == ssa.Value(phi) || depth > 6 {
+							return
+						}
+						if inner, ok := v.(*ssa.Phi); ok && inner.Block() != loop {
+							for j, ie := range inner.Edges {
+								chk(ie, inner.Block().Preds[j], depth+1)
+							}
+							return
+						}
+						if !selDominates(p) {
+							why = fmt.Sprintf("the reference value is replaced on the edge from block %d to the loop header, which is taken without delivering the change (at %s)", p.Index, c.Prog.Rel(cmpCall.Pos()))
+						}
+					}
+					chk(e, pred, 0)
+				}
+			}
+			for _, m := range maps {
+				an.Instrs(f, func(in ssa.Instruction) {
+					if !loop.Dominates(in.Block()) {
+						return
+					}
+					isWrite := false
+					switch x := in.(type) {
+					case *ssa.MapUpdate:
+						isWrite = x.Map == m
+					case *ssa.Call:
+						isWrite = an.CalleeName(x) == "builtin delete" && len(x.Call.Args) == 2 && x.Call.Args[0] == m
+					}
+					if !isWrite {
+						return
+					}
+					t, _ := an.PathQuery{
+						Target: func(x ssa.Instruction) bool { return x.Block() == loop },
+						Avoid:  func(x ssa.Instruction) bool { _, isSel := x.(*ssa.Select); return isSel },
+					}.From(f, in)
+					if t != nil {
+						why = "the per-id reference map is written at " + c.Prog.Rel(in.Pos()) + " on a path that reaches the next iteration without delivering the change"
+					}
+				})
+			}
+			c.Check(why == "", rule, cons, cmpCall.Pos(), fmt.Sprintf("%d loop-carried variable(s), %d map(s)", len(hdrPhis), len(maps)),
+				why+": a suppressed change still moves the reference, so a run of small steps is never reported although the subscriber's value is no longer equivalent to the stored one")
+		}
+		if !found {
+			c.Unk(rule, cons, fn.Pos(), "no equivalence.Compare call found in the Pull goroutine")
+		}
 	}
 }
